@@ -376,6 +376,17 @@ fn check(ctx: &Ctx, out: &RunOut) -> Result<Vec<Viol>, String> {
                             });
                         } else {
                             ctx.count("anomaly_grant_for_block_in_progress");
+                            // The daser promised the pruner a block whose sampling is in progress
+                            // (started before the WantToPrune was sent, still running at the reply).
+                            // This is C35's concern (Daser::want_to_prune is its mechanism): reported
+                            // by check C35 through `daser_grant_scan`, only counted by C34.
+                            v.push(Viol {
+                                sig: "C35/daser/grants-prune-while-sampling-in-progress".into(),
+                                msg: format!("the daser answered WantToPrune({h}) with true although the sampling of height {h} started before the request was sent and is still in progress when the grant arrives"),
+                                at: i,
+                                h: *h,
+                                state: json!({"in_progress": in_progress}),
+                            });
                         }
                     }
                     promised.insert(*h);
@@ -468,6 +479,9 @@ pub fn run(ctx: &Ctx) {
                 })
                 .collect();
             for x in viols {
+                if x.sig.starts_with("C35/") {
+                    continue; // decided by check C35 (daser_grant_scan)
+                }
                 ctx.violation(
                     &x.sig,
                     &x.msg,
@@ -510,4 +524,52 @@ pub fn run(ctx: &Ctx) {
         ctx.floor("disconnections", if q { 100 } else { 2_000 });
         ctx.floor("queue_inconsistent_height_not_found", if q { 10 } else { 200 });
     }
+}
+
+
+/// Part of C35 ("... or a header whose sampling is in progress"): the real Daser must never grant the
+/// pruner a block whose sampling is in progress. Runs the C34 schedules (real Daser, harness as
+/// pruner) and reports only the grants that contradict this.
+pub fn daser_grant_scan(ctx: &Ctx) {
+    let sq = squares(ctx);
+    let runs = if ctx.san() { 40 } else { ctx.scale3(3u64, 360, 6_000) };
+    let shards = ctx.cores();
+    let prof = profile();
+    ctx.par(shards, |shard| {
+        for case in (shard as u64..runs).step_by(shards) {
+            let mut rng = ctx.rng(77, case);
+            let cfg = gen_cfg(&mut rng, &prof, (60, 260), ctx.tiny());
+            let out = run_one(rng, cfg, sq);
+            if out.harness_err.is_some() || out.wall.as_secs() >= 20 {
+                ctx.count("daser_grant_scan.runs_discarded");
+                continue;
+            }
+            let Ok(viols) = check(ctx, &out) else {
+                ctx.count("daser_grant_scan.runs_discarded");
+                continue;
+            };
+            ctx.count("daser_grant_scan.schedules");
+            ctx.eval();
+            let rid_h: BTreeMap<u64, u64> = out
+                .log
+                .iter()
+                .filter_map(|e| match e {
+                    Ev::Net(NetEv::Request { rid, cid, .. }) => decode_sample_cid(cid).map(|d| (*rid, d.0)),
+                    _ => None,
+                })
+                .collect();
+            for x in viols.into_iter().filter(|x| x.sig.starts_with("C35/")) {
+                ctx.violation(
+                    &x.sig,
+                    &x.msg,
+                    json!({
+                        "run": {"stream": 77, "case": case},
+                        "cfg": cfg_json(&out.cfg),
+                        "log_index": x.at,
+                        "history_of_height": excerpt(&out.log, x.at, x.h, &rid_h),
+                    }),
+                );
+            }
+        }
+    });
 }
